@@ -131,4 +131,20 @@ PROPS = {
         "level_note": "trusted: Lean kernel; harness/check; fake client as API server; views monotone per kind; the tie between Lean model and Go controllers is differential (sampling)",
         "assumptions": ["informer caches are monotone per kind", "nobody but the controllers deletes run objects", "algorithm service returns fresh names"],
     },
+    "C19": {
+        "prop_files": ["Katib/Props/C19.lean"],
+        "n": {"quick": 6000, "thorough": 300000},
+        "rule": "seeded random Report/Get/Delete requests against the real mysql and postgres dbConn behind a recording database/sql driver: "
+                "missing observation_log, entries without metric, empty/invalid/zoned timestamps, SQL metacharacters, placeholders and format verbs as data, "
+                "canned result rows incl. unparsable times; statement text and bound arguments compared exactly; non-trivial = the request is not a plain delete",
+        "trusted": ["time.Parse/Format as oracle (formatted value on the op line)", "the go/ast call-site translator (kvh extract db)"],
+        "modelled": ["dbConn.RegisterObservationLog/GetObservationLog/DeleteObservationLog (mysql.go, postgres.go) as Katib.DB.register/get/delete",
+                     "cmd/db-manager server methods only forward to these three functions (not modelled separately)"],
+        "level_text": "Lean theorems: statement text is a function of the number of timestamped entries / the set of present filters only (C19_insert_text(+_independent), "
+                      "C19_get_text, C19_delete), arguments carry the data in order (C19_insert_args), malformed requests yield an error and no statement "
+                      "(C19_parse_error_no_statement, C19_get_bad_filter); C19_sites_constant over the call-site table regenerated from pkg/db on every run; "
+                      "differential run against both real back ends",
+        "level_note": "trusted: Lean kernel; harness/check; recording SQL driver; the syntactic taint classification of the translator",
+        "assumptions": ["database/sql passes statement text and arguments unchanged to the driver"],
+    },
 }
